@@ -243,7 +243,7 @@ func ctrInv(s *seqCounters) bool {
 // The chunk callback of SegmentHandlerFunc: the file a segment is written to and the old file
 // removed from the sliding window are both named in the receiver's OUTGOING numbering
 // (rsd.seqNr, the number stored in the buffers and listed in the MPD), never the encoder's.
-//@ func (*Receiver).SegmentHandlerFunc$2
+//@ func (*Receiver).SegmentHandlerFunc$chunkParserCallback
 //@   wiring
 //@   callsite Sprintf requires filesInStoredNumbering: arg0 == "%d%s" ==> (vararg0.(uint32) == (*rsd).seqNr || vararg0.(uint32) == (*rsd).seqNr - (*ch).maxNrBufSegs)
 
